@@ -217,3 +217,40 @@ pub fn first_diff(a: &[u64], b: &[u64]) -> Option<usize> {
     }
     a.iter().zip(b).position(|(x, y)| x != y)
 }
+
+/// A face integral of the harness' own that remembers the clipping plane it belongs to
+/// (the library's `AreaCentroidIntegral` does not).
+#[derive(Clone, Debug, Default)]
+pub struct PlaneFace {
+    pub plane_idx: usize,
+    pub area: f64,
+    pub centroid: DVec3,
+    pub tris: usize,
+}
+impl meshless_voronoi::integrals::FaceIntegral for PlaneFace {
+    fn init<M: ConvexCellMarker>(_cell: &ConvexCell<M>, clipping_plane_idx: usize) -> Self {
+        PlaneFace { plane_idx: clipping_plane_idx, area: 0., centroid: DVec3::ZERO, tris: 0 }
+    }
+    fn collect(&mut self, v0: DVec3, v1: DVec3, v2: DVec3, gen: DVec3) {
+        let a = meshless_voronoi::geometry::signed_area_tri(v0, v1, v2, gen);
+        self.area += a;
+        self.centroid += a * (v0 + v1 + v2);
+        self.tris += 1;
+    }
+    fn finalize(mut self) -> Self {
+        if self.area > 0. {
+            self.centroid /= 3. * self.area;
+        } else {
+            self.centroid = DVec3::ZERO;
+        }
+        self
+    }
+}
+
+/// Integer period shift of a face (shift / width, rounded), zero when absent.
+pub fn shift_ints(shift: Option<DVec3>, width: &[f64; 3]) -> [i32; 3] {
+    match shift {
+        None => [0; 3],
+        Some(s) => [(s.x / width[0]).round() as i32, (s.y / width[1]).round() as i32, (s.z / width[2]).round() as i32],
+    }
+}
